@@ -1,5 +1,11 @@
 package internal
 
+import (
+	"context"
+
+	"google.golang.org/grpc/connectivity"
+)
+
 // Test-only accessors for the C15 conformance driver (overlaid into lib/discov/internal by
 // /verif/bin/check as zz_verif_c15_export_test.go; nothing is written to /repo).  The driver
 // itself lives in the external test package internal_test because it also imports lib/discov,
@@ -17,6 +23,31 @@ func VerifSeedClient(endpoints []string, cli EtcdClient) {
 func VerifReload(endpoints []string, cli EtcdClient) {
 	c, _ := GetRegistry().getCluster(append([]string(nil), endpoints...))
 	c.reload(cli)
+}
+
+// VerifConn is the connection-state source a stateWatcher watches (the unexported etcdConn).
+type VerifConn interface {
+	GetState() connectivity.State
+	WaitForStateChange(ctx context.Context, sourceState connectivity.State) bool
+}
+
+// VerifWatchConnState wires what cluster.watchConnState wires - a new stateWatcher whose
+// listener starts the cluster's reload - but on a scripted connection-state source instead of
+// cli.ActiveConnection() (a concrete *grpc.ClientConn that cannot be scripted).
+func VerifWatchConnState(endpoints []string, cli EtcdClient, conn VerifConn) {
+	c, _ := GetRegistry().getCluster(append([]string(nil), endpoints...))
+	watcher := newStateWatcher()
+	watcher.addListener(func() {
+		go c.reload(cli)
+	})
+	go watcher.watch(conn)
+}
+
+// VerifNewStateWatcher starts a real stateWatcher with one listener on a scripted connection.
+func VerifNewStateWatcher(conn VerifConn, listener func()) {
+	w := newStateWatcher()
+	w.addListener(listener)
+	go w.watch(conn)
 }
 
 // VerifDrop ends the watch goroutines of a cluster and forgets it (per-case isolation).
